@@ -1,11 +1,16 @@
 """C08 - only protocol-valid requests reach handlers; valid requests are not refused"""
 import nauyaca.protocol.request  # noqa: F401
 
-from vf import Ob, V, internal, pick
+from vf import Ob, V, pick
 from vf.server import Spy, UploadSpy, make, wire_response
-from vf.symbuf import Fill, deliver, mk
+from vf.symbuf import Fill, Txt, deliver, mk
 
 NMAX = 2000
+
+
+def _request(p, url):
+    """the request line ``url`` (a str built from symbolic characters, free of CR/LF) arrives in one read"""
+    p.data_received(mk(Txt(url), b"\r\n"))
 
 
 def _status(t):
@@ -192,7 +197,7 @@ def accept_host(hk: int, a: int, pk: int) -> bool:
     host = pre + (HEXS[a] if hk == 2 else chr(a)) + suf
     port_txt, port = [("", 1965), (":1965", 1965), (":7", 7)][pk]
     url = "gemini://" + host + port_txt + "/x"
-    internal(p, "_handle_gemini_request")(url)
+    _request(p, url)
     exp_host = host.lower()
     if hk == 2:
         exp_host = exp_host[1:-1]
@@ -215,7 +220,7 @@ def accept_port(pre_k: int, d: int) -> bool:
     # by symbolic index into a concrete table (the engine forks per digit)
     txt = prefix + DIGS[d]
     port = (int(prefix) if prefix else 0) * 10 + d
-    internal(p, "_handle_gemini_request")("gemini://h:" + txt + "/")
+    _request(p, "gemini://h:" + txt + "/")
     if port > 65535:
         loop.run_ready()
         return V(len(spy.calls) == 0 and _status(t) == b"59")     # not a port: refused
@@ -241,7 +246,7 @@ def accept_path(sk: int, c: int, h1: int, h2: int) -> bool:
         path_txt = exp = "/p%" + chr(h1) + chr(h2) + "/" + c + "q"
     else:
         path_txt = exp = "/a/" + c + "/"
-    internal(p, "_handle_gemini_request")("gemini://h" + path_txt)
+    _request(p, "gemini://h" + path_txt)
     return V(_accepted(p, t, loop, spy, "h", 1965, exp, ""))
 
 
@@ -255,7 +260,7 @@ def accept_path2(sk: int, c: int, d: int, h1: int) -> bool:
     p, t, loop = make(spy)
     c, d = chr(c), chr(d)
     path = ["/" + c + d, "/d" + c + "/" + d + "f", "/%4" + chr(h1) + c + "/" + d][sk]
-    internal(p, "_handle_gemini_request")("gemini://h" + path + "?k=v")
+    _request(p, "gemini://h" + path + "?k=v")
     return V(_accepted(p, t, loop, spy, "h", 1965, path, "k=v"))
 
 
@@ -271,7 +276,7 @@ def accept_query(sk: int, c: int, d: int) -> bool:
     d = chr(d)
     q = [c, "k=" + c + "&" + d, c + "%20" + d][sk]
     path = ["", "/", "/p"][sk]
-    internal(p, "_handle_gemini_request")("gemini://h" + path + "?" + q)
+    _request(p, "gemini://h" + path + "?" + q)
     return V(_accepted(p, t, loop, spy, "h", 1965, path or "/", q))
 
 
@@ -295,7 +300,7 @@ def reject_scheme(c: int, d: int, two: bool) -> bool:
     scheme = "gemin" + chr(c) + (chr(d) if two else "")
     if scheme.lower() == "gemini":
         return True          # the acceptable spelling (upper-case variant: grey zone)
-    internal(p, "_handle_gemini_request")(scheme + "://h/")
+    _request(p, scheme + "://h/")
     return V(_refused(p, t, loop, spy))
 
 
@@ -310,7 +315,7 @@ def reject_nohost(k: int, c: int, has: bool) -> bool:
     c = chr(c) if has else ""
     url = ["gemini://", "gemini:///" + c, "gemini://:1965/" + c, "gemini:/h/" + c, "gemini:h" + c,
            "gemini://?" + c][k]
-    internal(p, "_handle_gemini_request")(url)
+    _request(p, url)
     return V(_refused(p, t, loop, spy))
 
 
@@ -327,7 +332,7 @@ def reject_userinfo(k: int, u: int, w: int, hi: bool) -> bool:
         return True          # "gemini://:@h/": empty user and empty password -- grey zone
     uu = "\u00e9" if hi else chr(u)
     url = ["gemini://" + uu + "@h/", "gemini://" + uu + ":" + chr(w) + "@h/"][k]
-    internal(p, "_handle_gemini_request")(url)
+    _request(p, url)
     return V(_refused(p, t, loop, spy))
 
 
@@ -341,7 +346,7 @@ def reject_fragment(k: int, f: int) -> bool:
     p, t, loop = make(spy)
     f = chr(f)
     url = ["gemini://h/#" + f, "gemini://h/p?q#" + f, "gemini://h#" + f][k]
-    internal(p, "_handle_gemini_request")(url)
+    _request(p, url)
     return V(_refused(p, t, loop, spy))
 
 
@@ -422,7 +427,7 @@ def titan_noparams(k: int, c: int) -> bool:
            "titan://h/f;" + c][k]
     if k == 2 and c == "e":
         return True          # that spells size=1, a valid request
-    internal(p, "_handle_titan_url")(url)
+    _request(p, url)
     return V(_refused(p, t, loop, spy, up, b"59"))
 
 
